@@ -263,3 +263,11 @@ package primitive
 //@   prop C03
 //@   assigns nothing
 //@   assumes len: result == abstractLen("stringmultimap", m)
+//@ func WriteReasonMap
+//@   prop C03
+//@   assigns wstream(dest)
+//@   assumes len: result == nil ==> written(dest) == old(written(dest)) + abstractLen("reasonmap", reasonMap)
+//@ func LengthOfReasonMap
+//@   prop C03
+//@   assigns nothing
+//@   assumes len: result1 == nil ==> result0 == abstractLen("reasonmap", reasonMap)
